@@ -17,6 +17,7 @@ R16.5 gcd / lcm dual calling convention: both branches reduce with the same bina
 import ast
 
 from sa.model import AnalysisError, norm_text
+from sa import pat
 from .common import world
 
 
@@ -35,25 +36,30 @@ def sieve(n):
     return [i for i in range(n + 1) if s[i]]
 
 
-def _side(e, env):
-    """expression -> (atom, const) with atom in {'n','d','q=n//d','d*d', other text}"""
+def _side(e, env, d="d", n="n"):
+    """expression -> (atom, const) with atom in {n, d, 'n//d', 'd*d', other text}; d / n are the
+    names the analysed function uses for the candidate divisor and the remaining cofactor"""
     if isinstance(e, ast.BinOp) and isinstance(e.op, (ast.Add, ast.Sub)) and isinstance(e.right, ast.Constant) and isinstance(e.right.value, int):
-        a, c = _side(e.left, env)
+        a, c = _side(e.left, env, d, n)
         return a, c + (e.right.value if isinstance(e.op, ast.Add) else -e.right.value)
     if isinstance(e, ast.BinOp) and isinstance(e.op, ast.Add) and isinstance(e.left, ast.Constant) and isinstance(e.left.value, int):
-        a, c = _side(e.right, env)
+        a, c = _side(e.right, env, d, n)
         return a, c + e.left.value
     if isinstance(e, ast.Name):
+        if e.id == d:
+            return "d", 0
+        if e.id == n:
+            return "n", 0
         return env.get(e.id, e.id), 0
-    t = norm_text(e)
-    if t in ("d * d", "d ** 2", "pow(d, 2)"):
+    bd = {"L_d": d}
+    if pat.any_of(e, ["L_d * L_d", "L_d ** 2", "pow(L_d, 2)"], bd) is not None:
         return "d*d", 0
-    if t == "n // d":
+    if pat.match("%s // L_d" % n, e, bd) is not None:
         return "n//d", 0
-    return t, 0
+    return norm_text(e), 0
 
 
-def _strict(test, env):
+def _strict(test, env, d="d", n="n"):
     """comparison -> (L, R, c) meaning L < R + c over the integers, or None"""
     neg = False
     while isinstance(test, ast.UnaryOp) and isinstance(test.op, ast.Not):
@@ -61,7 +67,7 @@ def _strict(test, env):
         test = test.operand
     if not (isinstance(test, ast.Compare) and len(test.ops) == 1):
         return None
-    (l, lc), (r, rc) = _side(test.left, env), _side(test.comparators[0], env)
+    (l, lc), (r, rc) = _side(test.left, env, d, n), _side(test.comparators[0], env, d, n)
     op = type(test.ops[0])
     if neg:
         op = {ast.Lt: ast.GtE, ast.GtE: ast.Lt, ast.Gt: ast.LtE, ast.LtE: ast.Gt}.get(op)
@@ -84,37 +90,49 @@ def _negate(st):
 STOP_FORMS = {("n//d", "d", 0), ("n", "d*d", 0)}     # both say d*d > n for d >= 1
 
 
-def _search_stop(fnode):
-    """find the open-ended divisor search (the loop that steps d by 2) and normalise its exit
-    condition; accepted: any comparison equivalent over the integers to n // d < d or
+def _search_stop(fnode, n):
+    """find the open-ended divisor search (the while-loop that steps a local by 2) and normalise
+    its exit condition; accepted: any comparison equivalent over the integers to n // d < d or
     n < d*d, as `while`-test (negated) or as an `if ...: break` in the loop body"""
     for lp in ast.walk(fnode):
         if not isinstance(lp, ast.While):
             continue
-        step = [norm_text(x) for x in lp.body if isinstance(x, (ast.Assign, ast.AugAssign)) and norm_text(x).split(" ")[0] == "d"]
-        if not step:
+        d = None
+        for x in lp.body:
+            bb = pat.any_of(x, ["L_d = L_d + 2", "L_d += 2", "L_d = 2 + L_d"])
+            if bb is not None:
+                d = bb["L_d"]
+                break
+        if d is None:
+            # a loop that steps, by something else than 2, the variable it divides by
+            for x in lp.body:
+                bo = pat.any_of(x, ["L_d = L_d + X_c", "L_d += X_c"]) if isinstance(x, (ast.Assign, ast.AugAssign)) else None
+                if bo is not None and any(pat.any_of(y, ["divmod(%s, L_d)" % n, "%s // L_d" % n, "%s %% L_d" % n], {"L_d": bo["L_d"]}) is not None for z in lp.body for y in ast.walk(z)):
+                    return False, "the candidate divisor is advanced by `%s`" % norm_text(x)
             continue
-        if step[0] not in ("d = d + 2", "d += 2", "d = 2 + d"):
-            return False, "the candidate divisor is advanced by `%s`" % step[0]
         env = {}
         exits = []
         if norm_text(lp.test) not in ("1", "True"):
-            exits.append(_negate(_strict(lp.test, env)))
+            exits.append(_negate(_strict(lp.test, env, d, n)))
+        bd = {"L_d": d}
         for x in lp.body:
-            if isinstance(x, ast.Assign) and isinstance(x.value, ast.Call) and norm_text(x.value) == "divmod(n, d)" and isinstance(x.targets[0], ast.Tuple):
-                env[x.targets[0].elts[0].id] = "n//d"
-            elif isinstance(x, ast.Assign) and norm_text(x.value) == "n // d" and isinstance(x.targets[0], ast.Name):
-                env[x.targets[0].id] = "n//d"
-            elif isinstance(x, ast.Assign) and norm_text(x.value) in ("d * d", "d ** 2") and isinstance(x.targets[0], ast.Name):
-                env[x.targets[0].id] = "d*d"
+            b1 = pat.match("L_q, L_r = divmod(%s, L_d)" % n, x, bd)
+            b2 = pat.match("L_q = %s // L_d" % n, x, bd)
+            b3 = pat.any_of(x, ["L_dd = L_d * L_d", "L_dd = L_d ** 2"], bd)
+            if b1 is not None:
+                env[b1["L_q"]] = "n//d"
+            elif b2 is not None:
+                env[b2["L_q"]] = "n//d"
+            elif b3 is not None:
+                env[b3["L_dd"]] = "d*d"
             elif isinstance(x, ast.If) and any(isinstance(y, ast.Break) for y in x.body):
-                exits.append(_strict(x.test, env))
+                exits.append(_strict(x.test, env, d, n))
         if len(exits) != 1:
             return False, "%d exit condition(s) in the search loop" % len(exits)
         if exits[0] in STOP_FORMS:
             return True, "stop test normalises to %s < %s" % exits[0][:2]
         return False, "stop test normalises to %s, which is not equivalent to d*d > n" % (("%s < %s + %d" % exits[0]) if exits[0] else "an unrecognised form")
-    return False, "no loop stepping the candidate divisor d found"
+    return False, "no loop stepping a candidate divisor by 2 found"
 
 
 def run(chk):
@@ -144,15 +162,16 @@ def run(chk):
     f = p.func("numbertheory:is_prime")
     n = f.params[0]
     body = [s for s in f.node.body if not (isinstance(s, ast.Expr) and isinstance(s.value, ast.Constant))]
-    small = next((s for s in body if isinstance(s, ast.If) and norm_text(s.test) in ("%s <= smallprimes[-1]" % n, "%s <= smallprimes[len(smallprimes) - 1]" % n)), None)
+    small = next((s for s in body if isinstance(s, ast.If) and pat.any_of(s.test, ["%s <= smallprimes[-1]" % n, "%s <= smallprimes[len(smallprimes) - 1]" % n, "%s <= max(smallprimes)" % n]) is not None), None)
     oks = False
     if small is not None:
-        inner = small.body
-        if len(inner) == 1 and isinstance(inner[0], ast.If) and norm_text(inner[0].test) == "%s in smallprimes" % n:
-            t, e = inner[0].body, inner[0].orelse
-            oks = len(t) == 1 and len(e) == 1 and norm_text(t[0]) == "return True" and norm_text(e[0]) == "return False"
-        elif len(inner) == 1 and norm_text(inner[0]) == "return %s in smallprimes" % n:
-            oks = True
+        oks = pat.any_of(small.body, ["if %s in smallprimes:\n    return True\nelse:\n    return False" % n, "if %s not in smallprimes:\n    return False\nelse:\n    return True" % n,
+                                     "return %s in smallprimes" % n]) is not None if len(small.body) == 1 else False
+        if not oks and len(small.body) == 1:
+            oks = pat.any_of(small.body[0], ["if %s in smallprimes:\n    return True\nelse:\n    return False" % n, "if %s not in smallprimes:\n    return False\nelse:\n    return True" % n,
+                                            "return %s in smallprimes" % n]) is not None
+        if not oks and len(small.body) == 2:
+            oks = pat.match("if %s in smallprimes:\n    return True" % n, small.body[0]) is not None and norm_text(small.body[1]) == "return False"
     chk.ob("R16.2", "is_prime: n <= max(table) answered by `n in smallprimes`", oks, loc=f.qname, key="C16|R16.2|small", detail="the small-n branch is not membership in the prime table")
     pre = [s for s in body if isinstance(s, ast.If) and "gcd(" in norm_text(s.test)]
     okp = len(pre) == 1 and len(pre[0].body) == 1 and norm_text(pre[0].body[0]) == "return False" and norm_text(pre[0].test).endswith("!= 1") and not pre[0].orelse
@@ -166,23 +185,27 @@ def run(chk):
     # order: small branch precedes the prefilter (so small primes are not rejected by the gcd)
     if small is not None and pre:
         chk.ob("R16.2", "is_prime: the table branch precedes the gcd prefilter", small.lineno < pre[0].lineno, loc=f.qname, key="C16|R16.2|order", detail="the gcd prefilter runs before the table lookup (would reject 2, 3, 5, 7, 11)")
-    # ---- R16.3 thresholds
-    t0 = None
-    table = None
-    loopvar = None
-    for s in ast.walk(f.node):
-        if isinstance(s, ast.Assign) and isinstance(s.targets[0], ast.Name) and isinstance(s.value, ast.Constant) and isinstance(s.value.value, int) and s.targets[0].id == "t":
-            t0 = s.value.value
-        if isinstance(s, ast.For) and isinstance(s.iter, ast.Tuple) and all(isinstance(e, ast.Tuple) and len(e.elts) == 2 for e in s.iter.elts):
-            table = [(e.elts[0].value, e.elts[1].value) for e in s.iter.elts]
-            loopvar = s
-    if t0 is None or table is None:
+    # ---- R16.3 thresholds (local names are found by role, through patterns)
+    loopvar = tb = None
+    for s_ in ast.walk(f.node):
+        if isinstance(s_, ast.For) and isinstance(s_.iter, ast.Tuple) and all(isinstance(e, ast.Tuple) and len(e.elts) == 2 and all(isinstance(c_, ast.Constant) for c_ in e.elts) for e in s_.iter.elts):
+            loopvar = s_
+    if loopvar is None:
         raise AnalysisError("is_prime: round-count table not found")
-    # semantics of the loop: for k, tt in table: if n_bits < k: break; t = tt
-    lb = [norm_text(x) for x in loopvar.body]
-    kname, ttname = loopvar.target.elts[0].id, loopvar.target.elts[1].id
-    okloop = len(loopvar.body) == 2 and lb[1] == "t = %s" % ttname and lb[0].replace("\n", " ").startswith("if n_bits < %s" % kname) and "break" in lb[0]
-    chk.ob("R16.3", "round-count loop is `if n_bits < k: break; t = tt`", okloop, loc=f.qname, key="C16|R16.3|loop", detail="threshold loop has another shape: %s" % lb)
+    table = [(e.elts[0].value, e.elts[1].value) for e in loopvar.iter.elts]
+    tb = pat.any_of(loopvar, ["for L_k, L_tt in X_table:\n    if L_nbits < L_k:\n        break\n    L_t = L_tt",
+                              "for L_k, L_tt in X_table:\n    if L_k > L_nbits:\n        break\n    L_t = L_tt",
+                              "for L_k, L_tt in X_table:\n    if L_nbits >= L_k:\n        L_t = L_tt\n    else:\n        break"])
+    chk.ob("R16.3", "round-count loop is `if n_bits < k: break; t = tt`", tb is not None, loc=f.qname, key="C16|R16.3|loop", detail="threshold loop has another shape: %s" % [norm_text(x) for x in loopvar.body])
+    if tb is None:
+        raise AnalysisError("is_prime: round-count loop not recognised (reported above)") if False else None
+    tname = tb["L_t"] if tb else None
+    nbname = tb["L_nbits"] if tb else None
+    t0s = [s_.value.value for s_ in ast.walk(f.node) if tname and isinstance(s_, ast.Assign) and isinstance(s_.targets[0], ast.Name) and s_.targets[0].id == tname and isinstance(s_.value, ast.Constant) and isinstance(s_.value.value, int)
+           and s_.lineno < loopvar.lineno]
+    if tb is not None and len(t0s) != 1:
+        raise AnalysisError("is_prime: initial round count not found")
+    t0 = t0s[0] if t0s else 0
 
     def rounds(bits):
         t = t0
@@ -192,55 +215,104 @@ def run(chk):
             t = tt
         return t
     worst = min(rounds(b) for b in range(1, 66))
+    # any other assignment to the round counter: a constant one may lower the count for some
+    # inputs (taken conservatively as applying to all of them); anything else is not understood
+    extra = [s_ for s_ in ast.walk(f.node) if tname and isinstance(s_, (ast.Assign, ast.AugAssign)) and any(isinstance(t_, ast.Name) and t_.id == tname for t_ in (s_.targets if isinstance(s_, ast.Assign) else [s_.target]))
+             and not (loopvar.lineno <= s_.lineno <= loopvar.end_lineno) and s_.lineno > loopvar.lineno]
+    for s_ in extra:
+        if isinstance(s_, ast.Assign) and isinstance(s_.value, ast.Constant) and isinstance(s_.value.value, int):
+            worst = min(worst, s_.value.value)
+        else:
+            worst = 0
     chk.ob("R16.3", "rounds for every bit length <= 65: min %d >= 12" % worst, worst >= 12, loc=f.qname, key="C16|R16.3|rounds", detail="only %d Miller-Rabin rounds for some n < 2**64" % worst)
     chk.ob("R16.3", "never more rounds than table entries (max %d <= %d)" % (max([t0] + [tt for _k, tt in table]), len(sp)), max([t0] + [tt for _k, tt in table]) <= len(sp), loc=f.qname, key="C16|R16.3|index", detail="round count exceeds the prime table")
     # n_bits >= true bit length (1 + floor(log2 n)); an underestimate would pick fewer rounds
-    nb = [s for s in ast.walk(f.node) if isinstance(s, ast.Assign) and isinstance(s.targets[0], ast.Name) and s.targets[0].id == "n_bits"]
-    chk.ob("R16.3", "n_bits = 1 + int(log2 n) (or n.bit_length())", len(nb) == 1 and norm_text(nb[0].value) in ("1 + int(math.log(n, 2))", "n.bit_length()", "int(math.log(n, 2)) + 1"), loc=f.qname, key="C16|R16.3|nbits",
-           detail="bit length computed as %s" % (norm_text(nb[0].value) if nb else None))
+    nb = [s_ for s_ in ast.walk(f.node) if nbname and isinstance(s_, ast.Assign) and isinstance(s_.targets[0], ast.Name) and s_.targets[0].id == nbname]
+    oknb = len(nb) == 1 and pat.any_of(nb[0].value, ["1 + int(math.log(%s, 2))" % n, "%s.bit_length()" % n, "int(math.log(%s, 2)) + 1" % n]) is not None
+    chk.ob("R16.3", "n_bits = 1 + int(log2 n) (or n.bit_length())", oknb, loc=f.qname, key="C16|R16.3|nbits", detail="bit length computed as %s" % (norm_text(nb[0].value) if nb else None))
     # bases
-    mr = [s for s in ast.walk(f.node) if isinstance(s, ast.For) and isinstance(s.iter, ast.Call) and norm_text(s.iter) in ("xrange(t)", "range(t)")]
-    okb = len(mr) == 1 and any(isinstance(x, ast.Assign) and norm_text(x.value) == "smallprimes[%s]" % mr[0].target.id for x in mr[0].body)
+    mr = []
+    for s_ in ast.walk(f.node):
+        if isinstance(s_, ast.For) and tname and isinstance(s_.target, ast.Name) and pat.any_of(s_.iter, ["xrange(L_t)", "range(L_t)"], {"L_t": tname}) is not None:
+            mr.append(s_)
+    B = {"L_t": tname, "L_i": mr[0].target.id} if len(mr) == 1 else None
+    okb = False
+    if B:
+        for x in mr[0].body:
+            r_ = pat.match("L_a = smallprimes[L_i]", x, B)
+            if r_ is not None:
+                B, okb = r_, True
     chk.ob("R16.3", "round i uses base smallprimes[i]", okb, loc=f.qname, key="C16|R16.3|bases", detail="Miller-Rabin bases are not smallprimes[0..t-1]")
     # False only on a witness
-    okw = False
-    if mr:
-        falses = [x for x in ast.walk(mr[0]) if isinstance(x, ast.Return) and norm_text(x) == "return False"]
-        parents = {}
-        for x in ast.walk(mr[0]):
-            for c in ast.iter_child_nodes(x):
-                parents[id(c)] = x
-        conds = []
-        for r in falses:
-            g = parents.get(id(r))
-            while g is not None and not isinstance(g, ast.If):
-                g = parents.get(id(g))
-            conds.append(norm_text(g.test) if g is not None else None)
-        okw = sorted(conds) == sorted(["y == 1", "y != n - 1"]) and all(isinstance(x, ast.Return) and norm_text(x) in ("return False",) or not isinstance(x, ast.Return) for x in ast.walk(mr[0]))
-        sq = [x for x in ast.walk(mr[0]) if isinstance(x, ast.Assign) and norm_text(x.value) in ("pow(y, 2, n)", "y * y % n")]
-        okw &= len(sq) == 1
-        first = [x for x in mr[0].body if isinstance(x, ast.Assign) and norm_text(x.value) == "pow(a, r, n)"]
-        okw &= len(first) == 1
+    okw = okd = False
+    if okb:
+        first = [pat.match("L_y = pow(L_a, L_r, %s)" % n, x, B) for x in mr[0].body]
+        first = [x for x in first if x is not None]
+        if len(first) == 1:
+            B = first[0]
+            falses = [x for x in ast.walk(mr[0]) if isinstance(x, ast.Return)]
+            parents = {}
+            for x in ast.walk(mr[0]):
+                for c in ast.iter_child_nodes(x):
+                    parents[id(c)] = x
+            conds = []
+            for r in falses:
+                g = parents.get(id(r))
+                while g is not None and not isinstance(g, ast.If):
+                    g = parents.get(id(g))
+                if g is None:
+                    conds.append(None)
+                elif pat.match("L_y == 1", g.test, B) is not None:
+                    conds.append("y == 1")
+                elif pat.any_of(g.test, ["L_y != %s - 1" % n, "not L_y == %s - 1" % n], B) is not None:
+                    conds.append("y != n - 1")
+                else:
+                    conds.append(norm_text(g.test))
+            okw = sorted(map(str, conds)) == sorted(["y == 1", "y != n - 1"]) and all(norm_text(x) == "return False" for x in falses)
+            sq = [x for x in ast.walk(mr[0]) if isinstance(x, ast.Assign) and pat.any_of(x, ["L_y = pow(L_y, 2, %s)" % n, "L_y = L_y * L_y %% %s" % n], B) is not None]
+            okw &= len(sq) == 1
+            # n - 1 = 2^s * r with r odd; at most s - 1 squarings
+            dec = [pat.any_of(x, ["while L_r % 2 == 0:\n    L_s = L_s + 1\n    L_r = L_r // 2", "while L_r % 2 == 0:\n    L_r = L_r // 2\n    L_s = L_s + 1",
+                                  "while L_r % 2 == 0:\n    L_s += 1\n    L_r //= 2", "while L_r % 2 == 0:\n    L_r //= 2\n    L_s += 1"], B) for x in f.node.body]
+            dec = [x for x in dec if x is not None]
+            if len(dec) == 1:
+                B = dec[0]
+                inits = {norm_text(x) for x in f.node.body if isinstance(x, ast.Assign)}
+                okd = ("%s = 0" % B["L_s"]) in inits and (("%s = %s - 1" % (B["L_r"], n)) in inits)
+                sl = [x for x in ast.walk(mr[0]) if isinstance(x, ast.While)]
+                okd &= len(sl) == 1 and pat.any_of(sl[0].test, ["L_j <= L_s - 1 and L_y != %s - 1" % n, "L_j < L_s and L_y != %s - 1" % n], B) is not None
+                if okd:
+                    bj = pat.any_of(sl[0].test, ["L_j <= L_s - 1 and L_y != %s - 1" % n, "L_j < L_s and L_y != %s - 1" % n], B)
+                    jn = bj["L_j"]
+                    steps = [norm_text(x) for x in sl[0].body if isinstance(x, (ast.Assign, ast.AugAssign)) and norm_text(x).startswith(jn + " ")]
+                    okd &= steps in (["%s = %s + 1" % (jn, jn)], ["%s += 1" % jn])
+                    pj = parents.get(id(sl[0]))
+                    ji = [norm_text(x) for x in (pj.body if pj is not None else []) if isinstance(x, ast.Assign) and norm_text(x).startswith(jn + " = ")]
+                    okd &= ji == ["%s = 1" % jn]
     chk.ob("R16.3", "False is returned only on a witness: y == 1 after a squaring, or y != n-1 after the squarings; y starts as a^r mod n", okw, loc=f.qname, key="C16|R16.3|witness", detail="the Miller-Rabin loop returns False for another reason / has another shape")
+    chk.ob("R16.3", "n - 1 = 2^s * r by halving while even (s from 0, r from n - 1); squarings j = 1 .. s - 1", okd, loc=f.qname, key="C16|R16.3|decomposition", detail="the 2-adic decomposition of n - 1 or the bound of the squaring loop changed")
     last = f.node.body[-1]
     chk.ob("R16.3", "is_prime ends with `return True`", norm_text(last) == "return True", loc=f.qname, key="C16|R16.3|true", detail="fall-through result is %s" % norm_text(last))
     # ---- R16.6 factorization: the divisor search stops only once d*d > n
     ff = p.func("numbertheory:factorization")
-    okf, whyf = _search_stop(ff.node)
+    okf, whyf = _search_stop(ff.node, ff.params[0])
     chk.ob("R16.6", "factorization: the odd-divisor search advances by 2 and stops exactly when d*d > n (q < d for q = n // d)", okf, loc=ff.qname, key="C16|R16.6|stop", detail="factorization's divisor search: %s" % whyf)
     small = [n_ for n_ in ast.walk(ff.node) if isinstance(n_, ast.For) and norm_text(n_.iter) == "smallprimes"]
-    oks2 = len(small) == 1 and any(isinstance(x, ast.If) and norm_text(x.test) == "d > n" and isinstance(x.body[0], ast.Break) for x in small[0].body)
+    fn_ = ff.params[0]
+    oks2 = len(small) == 1 and isinstance(small[0].target, ast.Name) and any(isinstance(x, ast.If) and isinstance(x.body[0], ast.Break) and pat.any_of(x.test, ["L_d > %s" % fn_, "%s < L_d" % fn_], {"L_d": small[0].target.id}) is not None for x in small[0].body)
     chk.ob("R16.6", "factorization: small primes tried in table order, stopping when d > n", oks2, loc=ff.qname, key="C16|R16.6|small", detail="the small-prime phase of factorization changed shape")
-    lt2 = any(isinstance(x, ast.If) and norm_text(x.test) == "n < 2" and norm_text(x.body[0]) == "return []" for x in ff.node.body)
+    lt2 = any(isinstance(x, ast.If) and norm_text(x.test) in ("%s < 2" % fn_, "%s <= 1" % fn_, "2 > %s" % fn_) and norm_text(x.body[0]) == "return []" for x in ff.node.body)
     chk.ob("R16.6", "factorization(n < 2) == []", lt2, loc=ff.qname, key="C16|R16.6|lt2", detail="n < 2 is not answered with the empty list")
     # ---- R16.4
     g = p.func("numbertheory:next_prime")
     a = g.params[0]
     b = [s for s in g.node.body if not (isinstance(s, ast.Expr) and isinstance(s.value, ast.Constant))]
-    ok4 = len(b) == 4 and norm_text(b[0]).replace("\n", " ") == "if %s < 2:     return 2" % a
-    ok4 &= len(b) == 4 and norm_text(b[1]) in ("result = %s + 1 | 1" % a, "result = (%s + 1) | 1" % a)
-    ok4 &= len(b) == 4 and isinstance(b[2], ast.While) and norm_text(b[2].test) == "not is_prime(result)" and [norm_text(x) for x in b[2].body] in (["result = result + 2"], ["result += 2"])
-    ok4 &= len(b) == 4 and norm_text(b[3]) == "return result"
+    ok4 = len(b) == 4 and pat.any_of(b[0], ["if %s < 2:\n    return 2" % a, "if %s <= 1:\n    return 2" % a]) is not None
+    B4 = pat.any_of(b[1], ["L_res = %s + 1 | 1" % a, "L_res = (%s + 1) | 1" % a]) if len(b) == 4 else None
+    ok4 &= B4 is not None
+    if B4 is not None:
+        ok4 &= pat.any_of(b[2], ["while not is_prime(L_res):\n    L_res = L_res + 2", "while not is_prime(L_res):\n    L_res += 2"], B4) is not None
+        ok4 &= pat.match("return L_res", b[3], B4) is not None
     chk.ob("R16.4", "next_prime: <2 -> 2; start at (n+1)|1; +2 until is_prime", ok4, loc=g.qname, key="C16|R16.4", detail="next_prime has another shape: %s" % [norm_text(x)[:40] for x in b])
     # ---- R16.5
     for nm, binf in (("gcd", "gcd2"), ("lcm", "lcm2")):
